@@ -119,6 +119,31 @@ def b_formats():
     return d
 
 
+def b_two_tables_formats():
+    """Two tables (the second cloned from the first) that both allocate format and control keys."""
+    d = Document(num_rows=3, num_cols=3)
+    t1 = d.sheets[0].tables[0]
+    t2 = d.sheets[0].add_table("T2", num_rows=3, num_cols=3)
+    t1.write(1, 1, 1234.5)
+    t1.set_cell_formatting(1, 1, "number", decimal_places=3)
+    t2.write(1, 1, 0.5)
+    t2.set_cell_formatting(1, 1, "percentage", decimal_places=1)
+    t1.write(2, 2, 99.0)
+    t1.set_cell_formatting(2, 2, "currency", currency_code="USD")
+    t2.write(2, 2, 7.0)
+    t2.set_cell_formatting(2, 2, "scientific", decimal_places=2)
+    t1.write(0, 0, True)
+    t1.set_cell_formatting(0, 0, "tickbox")
+    t2.write(0, 0, 3)
+    t2.set_cell_formatting(0, 0, "rating")
+    t2.write(0, 1, "Dog")
+    t2.set_cell_formatting(0, 1, "popup", popup_values=["Cat", "Dog"])
+    t1.write(0, 1, 5)
+    t1.set_cell_formatting(0, 1, "slider")
+    t1.merge_cells("B3:C3") if False else None
+    return d
+
+
 def b_custom_formats():
     d = Document(num_rows=5, num_cols=3)
     t = d.sheets[0].tables[0]
@@ -220,6 +245,7 @@ BUILDERS = {
     "borders": b_borders,
     "formats": b_formats,
     "custom_formats": b_custom_formats,
+    "two_tables_formats": b_two_tables_formats,
     "geometry": b_geometry,
     "structural": b_structural,
     "tiles": b_tiles,
